@@ -80,6 +80,9 @@ def regenerate():
     rc, o = sh([exe, "-repo", REPO, "-out", tmp, "-props", os.path.join(LEAN, "InvProxy/Props")])
     if rc != 0:
         shutil.rmtree(tmp, ignore_errors=True)
+        # the generated files on disk may stem from another tree (an earlier run): fall back to the committed
+        # snapshot, so that what is built and replayed next is at least the model of the unchanged tree
+        sh(["git", "-C", ROOT, "checkout", "--", "lean/InvProxy/Gen"])
         raise Broken("translator", "goextract", o.strip())
     gen = os.path.join(LEAN, "InvProxy/Gen")
     os.makedirs(gen, exist_ok=True)
